@@ -34,7 +34,7 @@ class F(Core.Component):
 
 
 TYPES = {'X': X, 'Y': Y, 'Z': Z, 'F': F}
-CLASSES = ['Agent', 'A', 'A1', 'B', 'Environment', 'E']
+CLASSES = ['Agent', 'A', 'A1', 'B', 'Environment', 'E', 'H']
 
 META = {
     'rule': 'BFS over class-level histories on a fresh hierarchy; full read-back of every class and instance creation '
@@ -96,8 +96,21 @@ class Harness:
         class E(Core.Environment):
             pass
 
-        w.cls = {'Agent': Core.Agent, 'A': A, 'A1': A1, 'B': B, 'Environment': Core.Environment, 'E': E,
+        class H(Core.Agent):
+            """A composite agent: its constructor first builds a member of a sibling class and a private sub-model
+            (whose environment is an agent too) and only then initialises itself."""
+
+            def __init__(self, id, model, tag=None):
+                self.member = A(f'{id}_member', model)
+                self.inner = Core.Model()
+                super().__init__(id, model, tag)
+
+        w.cls = {'Agent': Core.Agent, 'A': A, 'A1': A1, 'B': B, 'Environment': Core.Environment, 'E': E, 'H': H,
                  'SpaceWorld': Envs.SpaceWorld}
+        # the model already has inhabitants, and its environment carries a tag of its own
+        w.model.environment.add_agent(Core.Agent('resident', w.model))
+        w.model.environment.tag = 2
+        w.sleepers = []      # (instance, tag it must have, class name): created without a tag and not looked at since
         w.shared = {T: TYPES[T](A, w.model) for T in ('X', 'Y')}      # ONE object that may be attached to several classes
         w.comp = {(c, T): TYPES[T](w.cls[c], w.model) for c in CLASSES for T in ('X', 'Y', 'F')}
         w.m2 = new_model(seed=2)      # a later model in the same process: its components are offered to the same classes
@@ -206,6 +219,11 @@ class Harness:
                                f'detach of absent {T} from {c}')
                 w.last = ('detach', 'rejected')
         elif kind == 'tag':
+            # an instance created just before the default changes keeps the default it was created under - also when
+            # nobody looked at its tag in the meantime
+            if c != 'SpaceWorld':
+                sleeper = cls(w.model) if issubclass(cls, Core.Environment) else cls('sleeper', w.model)
+                w.sleepers.append((sleeper, ref['tag'], c))
             cls.tag = op[2]
             ref['tag'] = op[2]
             w.last = ('tag', op[2])
@@ -221,6 +239,10 @@ class Harness:
         raise Violation(f'{what}: accepted', expected=exc.__name__, observed='no exception')
 
     def check(self, w):
+        for inst, tag, c in w.sleepers:
+            if inst.tag != tag:
+                raise Violation(f'an instance of {c} created without a tag while the class default was {tag} shows tag '
+                                f'{inst.tag} after the default was changed', expected=tag, observed=inst.tag)
         for c in list(w.cls):
             cls, ref = w.cls[c], w.ref[c]
             what = f'class {c} (reference {w.ref})'
